@@ -118,7 +118,8 @@ class MetadataGenerator:
             for t in self.str_types_registry:
                 try:
                     value = t.to_internal_value(value)
-                except ValueError:
+                except (ValueError, OverflowError):
+                    # OverflowError: dateutil raises it for huge numbers ("Jan 99999999999")
                     continue
                 return t
             return StringLiteral({value})
